@@ -918,6 +918,19 @@ def probes(rng, tier):
         _probe(out, 'linear-interp-single-node-axis-nonfinite',
                'linear_interpolator on a grid with a single node along an axis (%d-d) reproduces the node values' % d,
                snip)
+    # ---- 6b. the vectorisation decorator called directly (scalar, 1-d array, (d, N) array, out=)
+    snip = ('import numpy as np, odl\n'
+            '@odl.util.vectorize\ndef f(x):\n    return 2.0 * x[0] if x[0] < 1.0 else x[0] - 3.0\n'
+            '@odl.util.vectorize\ndef g(x):\n    return x[0] + 10.0 * x[1] if x[0] < x[1] else 0.0\n'
+            'ref_f = lambda t: 2.0 * t if t < 1.0 else t - 3.0\n'
+            'xs = [0.5, 1.0, 2.5, -1.0]; P = np.array([[0.0, 2.0, 1.0], [1.0, 0.5, 1.0]])\n'
+            'o = np.full(3, np.nan); g(P, out=o)\n'
+            'observed = [float(f(0.5)), np.asarray(f(np.array(xs))).tolist(), np.asarray(g(P)).tolist(), o.tolist()]\n'
+            'expected = [1.0, [ref_f(t) for t in xs], [10.0, 0.0, 0.0], [10.0, 0.0, 0.0]]\n'
+            'ok = observed == expected\n')
+    _probe(out, 'vectorize-direct-call', 'odl.util.vectorize-wrapped functions called with a scalar, a 1-d array, '
+           'a (d, N) array and out= give the point-wise values', snip)
+
     # ---- 7. vector-valued callables through sampling_function (shaped out_dtype)
     for form, body in (('tuple-mixed', '(x[0] + 0.0 * x[1], 2.0, x[0] * x[1])'),
                        ('tuple-equal-partial', '(x[1], 2.0 * x[1], x[1] + 1.0)')):
